@@ -1,3 +1,154 @@
 import GoagModel.JsonModel
+/-
+  C08 — decoding is strict on required / type errors (the struct decoder `decodeFields` is the
+  model of the per-property blocks of the emitted `unmarshalJSONInnerBody`), for EVERY
+  property list, document and leaf behaviour.  The lossless-on-valid-documents half is
+  validated per program against the reference `prune` (see the check), not yet proved.
+-/
 namespace Goag.JsonM
+
+
+/-- **C08 (required)**: if decoding the declared properties succeeds, every required property
+    was present in the document -/
+theorem decodeFields_ok_required_present (tbl : LeafDec) (fields : List (String × Bool × Schema))
+    (ms : List (String × J)) (vs : List Val) (rest : List (String × J))
+    (h : decodeFields tbl fields ms = .ok (vs, rest)) :
+    ∀ name s, (name, true, s) ∈ fields → (ms.any (·.1 == name)) = true := by
+  induction fields generalizing ms vs rest with
+  | nil => intro name s hm; simp at hm
+  | cons f fs ih =>
+    obtain ⟨fname, freq, fsch⟩ := f
+    intro name s hm
+    rw [decodeFields] at h
+    simp only [List.mem_cons, Prod.mk.injEq] at hm
+    cases hl : lookupAssoc ms fname with
+    | none =>
+      simp only [hl] at h
+      by_cases hreq : freq = true
+      · simp [hreq] at h
+      · simp only [hreq, Bool.false_eq_true, if_false] at h
+        cases hrec : decodeFields tbl fs ms with
+        | error e => simp [hrec] at h
+        | ok p =>
+          rcases hm with ⟨rfl, rfl, rfl⟩ | hm
+          · exact absurd rfl hreq
+          · exact ih ms p.1 p.2 (by rw [hrec]) name s hm
+    | some j =>
+      simp only [hl] at h
+      rcases hm with ⟨rfl, rfl, rfl⟩ | hm
+      · -- present: lookupAssoc found it
+        unfold lookupAssoc at hl
+        simp only [Option.map_eq_some_iff] at hl
+        obtain ⟨kv, hf, _⟩ := hl
+        have hmem := List.mem_of_find?_eq_some hf
+        have hk := List.find?_some hf
+        simp only [List.any_eq_true]
+        exact ⟨kv, by simpa using hmem, hk⟩
+      · cases hd : decode tbl fsch j with
+        | error e => simp [hd] at h
+        | ok v =>
+          simp only [hd] at h
+          cases hrec : decodeFields tbl fs (eraseKey ms fname) with
+          | error e => simp [hrec] at h
+          | ok p =>
+            have := ih (eraseKey ms fname) p.1 p.2 (by rw [hrec]) name s hm
+            simp only [List.any_eq_true] at this ⊢
+            obtain ⟨kv, hkv, hk⟩ := this
+            unfold eraseKey at hkv
+            exact ⟨kv, (List.mem_filter.mp hkv).1, hk⟩
+
+/-- **C08 (error names the property)**: a "missing key" error names a declared required
+    property that the document (as far as it is still unconsumed) does not contain, or comes
+    from a nested value -/
+theorem decodeFields_never_unnamed_type (tbl : LeafDec) (fields : List (String × Bool × Schema))
+    (ms : List (String × J)) :
+    decodeFields tbl fields ms ≠ .error (.type none) ∧ decodeFields tbl fields ms ≠ .error .additional := by
+  induction fields generalizing ms with
+  | nil => rw [decodeFields]; simp
+  | cons f fs ih =>
+    obtain ⟨fname, freq, fsch⟩ := f
+    rw [decodeFields]
+    cases hl : lookupAssoc ms fname with
+    | none =>
+      simp only
+      by_cases hreq : freq = true
+      · simp [hreq]
+      · simp only [hreq, Bool.false_eq_true, if_false]
+        cases hrec : decodeFields tbl fs ms with
+        | error e =>
+          have := ih ms
+          rw [hrec] at this
+          simp only
+          exact this
+        | ok p => simp
+    | some j =>
+      simp only
+      cases hd : decode tbl fsch j with
+      | error e =>
+        simp only
+        cases e <;> simp [DErr.under]
+        rename_i k; cases k <;> simp [DErr.under]
+      | ok v =>
+        simp only
+        cases hrec : decodeFields tbl fs (eraseKey ms fname) with
+        | error e =>
+          have := ih (eraseKey ms fname)
+          rw [hrec] at this
+          simp only
+          exact this
+        | ok p => simp
+
+
+
+/-- a "key is missing" error names a declared required property, or is the error of a nested
+    value of a declared property -/
+theorem decodeFields_missing_origin (tbl : LeafDec) (fields : List (String × Bool × Schema))
+    (ms : List (String × J)) (k : String) (h : decodeFields tbl fields ms = .error (.missing k)) :
+    ∃ name req s, (name, req, s) ∈ fields ∧
+      ((name = k ∧ req = true) ∨ ∃ j, decode tbl s j = .error (.missing k)) := by
+  induction fields generalizing ms with
+  | nil => rw [decodeFields] at h; simp at h
+  | cons f fs ih =>
+    obtain ⟨fname, freq, fsch⟩ := f
+    rw [decodeFields] at h
+    cases hl : lookupAssoc ms fname with
+    | none =>
+      simp only [hl] at h
+      by_cases hreq : freq = true
+      · simp only [hreq, if_true, Except.error.injEq, DErr.missing.injEq] at h
+        exact ⟨fname, freq, fsch, by simp, Or.inl ⟨h, hreq⟩⟩
+      · simp only [hreq, Bool.false_eq_true, if_false] at h
+        cases hrec : decodeFields tbl fs ms with
+        | error e =>
+          simp only [hrec, Except.error.injEq] at h
+          subst h
+          obtain ⟨n, r, s, hm, hor⟩ := ih ms hrec
+          exact ⟨n, r, s, List.mem_cons_of_mem _ hm, hor⟩
+        | ok p => simp [hrec] at h
+    | some j =>
+      simp only [hl] at h
+      cases hd : decode tbl fsch j with
+      | error e =>
+        simp only [hd, Except.error.injEq] at h
+        have : e = .missing k := by
+          cases e <;> simp [DErr.under] at h
+          · exact congrArg DErr.missing h
+          · rename_i kk; cases kk <;> simp [DErr.under] at h
+        subst this
+        exact ⟨fname, freq, fsch, by simp, Or.inr ⟨j, hd⟩⟩
+      | ok v =>
+        simp only [hd] at h
+        cases hrec : decodeFields tbl fs (eraseKey ms fname) with
+        | error e =>
+          simp only [hrec, Except.error.injEq] at h
+          subst h
+          obtain ⟨n, r, s, hm, hor⟩ := ih _ hrec
+          exact ⟨n, r, s, List.mem_cons_of_mem _ hm, hor⟩
+        | ok p => simp [hrec] at h
+
+
+/-- non-vacuity: dropping the required key of a two-property object is an error naming it -/
+example : decodeFields [] [("a", true, .prim .str false), ("b", false, .any)] [("b", .null)] = .error (.missing "a") := by
+  simp [decodeFields, lookupAssoc]
+
 end Goag.JsonM
